@@ -257,7 +257,11 @@ func init() {
 		if err := os.Chdir(base); err != nil {
 			return err
 		}
+		hangs := 0
 		return e.each(func(i int, g *Rng) error {
+			if hangs >= 2 {
+				return nil // enough hanging cases to report; each further one costs 20 s
+			}
 			dir := filepath.Join(base, strconv.Itoa(i))
 			os.MkdirAll(dir, 0o755)
 			defer os.RemoveAll(dir)
@@ -277,8 +281,22 @@ func init() {
 			l := &Line{}
 			l.S("addr").N(len(steps))
 			obs := make([]addrObs, len(steps))
+			hung := false
 			for k, s := range steps {
-				obs[k] = runAddrStep(svc, vendor, s)
+				if hung {
+					// the service object is stuck: every further use would block as well
+					obs[k] = addrObs{class: "hang", afterBind: 2, afterShutdown: 2, reach: 2, clientClass: "-", servRet: "-"}
+				} else {
+					ch := make(chan addrObs, 1)
+					go func(s addrStep) { ch <- runAddrStep(svc, vendor, s) }(s)
+					select {
+					case obs[k] = <-ch:
+					case <-time.After(20 * time.Second):
+						obs[k] = addrObs{class: "hang", afterBind: 2, afterShutdown: 2, reach: 2, clientClass: "-", servRet: "-"}
+						hung = true
+						hangs++
+					}
+				}
 				l.Str(s.addr).S(s.pre).Bool(s.must).Bool(s.cmp).S(s.kind)
 			}
 			// relative paths are relative to base
